@@ -31,6 +31,7 @@ class Exec(ExprMixin, CallMixin, BuiltinMixin, StmtMixin, ExecBase):
         ExecBase.__init__(self, repo, reg, prop)
         self.regions = {}  # (fn short name, label) -> [region expr strings] (known findings: excluded input regions)
         self.sha = {}
+        self.skipped_clauses = []  # (label, anchor text) of clauses left undecided because their ghost anchor no longer binds
 
     def short(self, qn):
         parts = qn.split(".")
@@ -91,9 +92,31 @@ class Exec(ExprMixin, CallMixin, BuiltinMixin, StmtMixin, ExecBase):
             # a ghost update is anchored at a statement by the prefix of its text: after a refactor that removes the statement the contract
             # no longer binds (undecided), instead of silently leaving the ghost variable at its initial value
             texts = [ast.unparse(n) for n in ast.walk(node) if isinstance(n, ast.stmt)]
-            for anchor in c.ghost:
-                if anchor.startswith("after:") and not any(t.startswith(anchor[6:]) for t in texts):
-                    raise BindError("ghost anchor `%s` of the contract of %s matches no statement of the function any more" % (anchor[6:], c.qn))
+            dead = [a for a in c.ghost if a.startswith("after:") and not any(t.startswith(a[6:]) for t in texts)]
+            if dead:
+                # partial binding: the ghost variables those anchors would have set are unknown; clauses that mention them are left
+                # undecided one by one, every other clause of the contract is still verified.  A loop invariant that needs such a ghost
+                # cannot be dropped (later proofs rest on it): then the whole contract is unbound.
+                import copy as _copy, re as _re
+                dead_ghosts = set()
+                for a in dead:
+                    for gl in c.ghost[a]:
+                        dead_ghosts.add(gl.split("=", 1)[0].strip())
+                mention = lambda txt: any(_re.search(r"\b(final_)?%s\b" % _re.escape(g), txt) for g in dead_ghosts)
+                for k, lc in (c.loops or {}).items():
+                    for it in lc.get("invariant", []):
+                        if mention(it[1] if isinstance(it, tuple) else it):
+                            raise BindError("ghost anchor `%s` of the contract of %s matches no statement of the function any more (and loop %s needs its ghost)" % (dead[0][6:], c.qn, k))
+                for a in c.ghost:
+                    if a not in dead and any(mention(gl.split("=", 1)[1]) for gl in c.ghost[a] if "=" in gl):
+                        raise BindError("ghost anchor `%s` of the contract of %s matches no statement of the function any more" % (dead[0][6:], c.qn))
+                c = _copy.copy(c)
+                c.ghost = {a: v for a, v in c.ghost.items() if a not in dead}
+                kept, skipped = [], []
+                for lab, exx in c.ensures:
+                    (skipped if mention(exx) else kept).append((lab, exx))
+                c.ensures = kept
+                self.skipped_clauses = [(lab, dead[0][6:]) for lab, _ in skipped]
         for p in c.params:
             if p not in fparams and kind != "module":
                 raise BindError("contract parameter %s is not a parameter of %s" % (p, c.qn))
